@@ -21,12 +21,12 @@ package method
 //@ func isError
 //@   props C14
 //@   pure
-//@   requires obj != nil
+//@   requires@C13 obj != nil
 //@   ensures result == (dynIs[*types.Named](obj.Type()) && unboxed[*types.Named](obj.Type()).Obj().Name() == "error" && unboxed[*types.Named](obj.Type()).Obj().Pkg() == nil)
 
 //@ func Parse
 //@   props C14 C10 C06
-//@   requires obj != nil && opts != nil
+//@   requires@C13 obj != nil && opts != nil
 //@   assigns nothing
 //@   ensures err == nil ==> result != nil && isFresh(result)
 //@   ensures err != nil ==> result == nil
@@ -91,3 +91,88 @@ package method
 //@ func AvailableContextDebug
 //@   props C09
 //@   maprange 1 unordered-result lines
+
+// ---- C06: the method index as a data structure ----
+// view: l.Exact : Signature -> sequence of entries (Def, Item); l.Update : sequence of items
+//@ pred CtxSubset(required map[string]*xtype.Type, available map[string]*xtype.Type) bool = forall k string :: has(required, k) ==> has(available, k)
+
+// satisfiesContext(required, m) is "the keys of required are a subset of the keys of m"; callers reason with
+// the function symbol itself (opaque), its meaning is proved here once
+//@ func satisfiesContext
+//@   props C06
+//@   pure
+//@   opaque
+//@   ensures result == CtxSubset(required, m)
+//@   loop 1 invariant forall k string :: has(seen, k) ==> has(m, k)
+
+//@ func checkOverlap
+//@   props C06
+//@   pure
+//@   requires@C13 left != nil && right != nil
+//@   ensures (result != nil) == satisfiesContext(left.Context, right.Context)
+
+//@ func Index.Has
+//@   props C06
+//@   pure
+//@   requires@C13 l != nil
+//@   ensures result == has(l.Exact, sig)
+
+// representation invariant: every registered entry has a definition and an item
+//@ pred IndexWF[T any](l *Index[T]) bool = l != nil && l.Exact != nil
+//@     && (forall s xtype.Signature, j int :: has(l.Exact, s) && 0 <= j && j < len(l.Exact[s]) ==> l.Exact[s][j].Def != nil && l.Exact[s][j].Item != nil)
+//@ pred ValidID[T any](l *Index[T], id IndexID) bool =
+//@     (id.update ==> 0 <= id.idx && id.idx < len(l.Update))
+//@     && (!id.update ==> has(l.Exact, id.sig) && 0 <= id.idx && id.idx < len(l.Exact[id.sig]))
+
+//@ func Index.ByID
+//@   props C06
+//@   pure
+//@   requires@C13 l != nil
+//@   requires@C13 ValidID(l, id)
+//@   ensures result == ite(id.update, l.Update[id.idx], l.Exact[id.sig][id.idx].Item)
+
+//@ func satisfiedError
+//@   props C06
+//@   pure
+//@   requires@C13 forall j int :: 0 <= j && j < len(hits) ==> hits[j].Def != nil
+//@   ensures result != nil
+
+// Get: nil/nil iff the signature is absent; otherwise the FIRST entry whose required context is available,
+// or an error when no entry is satisfiable
+//@ func Index.Get
+//@   props C06
+//@   requires@C13 IndexWF(l)
+//@   assigns nothing
+//@   ensures !has(l.Exact, sig) ==> result == nil && err == nil
+//@   ensures has(l.Exact, sig) && err == nil ==> (exists j int :: 0 <= j && j < len(l.Exact[sig]) && result == l.Exact[sig][j].Item
+//@           && satisfiesContext(l.Exact[sig][j].Def.Context, m)
+//@           && (forall i int :: 0 <= i && i < j ==> !satisfiesContext(l.Exact[sig][i].Def.Context, m)))
+//@   ensures has(l.Exact, sig) && err != nil ==> result == nil && (forall j int :: 0 <= j && j < len(l.Exact[sig]) ==> !satisfiesContext(l.Exact[sig][j].Def.Context, m))
+//@   ensures has(l.Exact, sig) ==> (err == nil) == (exists j int :: 0 <= j && j < len(l.Exact[sig]) && satisfiesContext(l.Exact[sig][j].Def.Context, m))
+//@   ensures err == nil && has(l.Exact, sig) ==> result != nil
+//@   loop 1 invariant forall j int :: 0 <= j && j < idx ==> !satisfiesContext(hits[j].Def.Context, m)
+
+// Register: appends (def, t) to the entries of def.Signature unless an existing entry overlaps in either
+// direction; every other signature, every earlier entry and every earlier id stay intact
+//@ func Index.Register
+//@   props C06
+//@   requires@C13 IndexWF(l) && def != nil && t != nil
+//@   assigns map(l.Exact)
+//@   ensures IndexWF(l)
+//@   ensures (err == nil) == old(forall j int :: 0 <= j && j < len(l.Exact[def.Signature]) ==>
+//@           !satisfiesContext(l.Exact[def.Signature][j].Def.Context, def.Context) && !satisfiesContext(def.Context, l.Exact[def.Signature][j].Def.Context))
+//@   ensures err != nil ==> same(keys(l.Exact), old(keys(l.Exact))) && (forall s xtype.Signature :: same(l.Exact[s], old(l.Exact[s])))
+//@   ensures err == nil ==> has(l.Exact, def.Signature) && len(l.Exact[def.Signature]) == len(old(l.Exact[def.Signature])) + 1
+//@   ensures err == nil ==> l.Exact[def.Signature][len(old(l.Exact[def.Signature]))].Item == t && l.Exact[def.Signature][len(old(l.Exact[def.Signature]))].Def == def
+//@   ensures err == nil ==> (forall j int :: 0 <= j && j < len(old(l.Exact[def.Signature])) ==> l.Exact[def.Signature][j] == old(l.Exact[def.Signature])[j])
+//@   ensures err == nil ==> (forall s xtype.Signature :: s != def.Signature ==> same(l.Exact[s], old(l.Exact[s])) && has(l.Exact, s) == old(has(l.Exact, s)))
+//@   ensures err == nil ==> !result0.update && result0.sig == def.Signature && result0.idx == len(old(l.Exact[def.Signature]))
+//@   loop 1 invariant forall j int :: 0 <= j && j < idx ==> !satisfiesContext(old(l.Exact[def.Signature])[j].Def.Context, def.Context) && !satisfiesContext(def.Context, old(l.Exact[def.Signature])[j].Def.Context)
+
+//@ func Index.RegisterUpdate
+//@   props C06
+//@   requires@C13 l != nil
+//@   assigns l.Update
+//@   ensures err == nil && len(l.Update) == len(old(l.Update)) + 1 && l.Update[len(old(l.Update))] == t
+//@   ensures forall j int :: 0 <= j && j < len(old(l.Update)) ==> l.Update[j] == old(l.Update)[j]
+//@   ensures result0.update && result0.idx == len(old(l.Update))
